@@ -25,7 +25,7 @@ def gen_cases(tier, seed):
             d['kind'] = 'dir'
             d['labels'] = 'int'
             out.append(d)
-    nr = {'quick': 3000, 'thorough': 400000}[tier]
+    nr = {'quick': 10000, 'thorough': 400000}[tier]
     kinds = ['dir', 'est', 'dest', 'nm', 'nmt']
     for k in range(nr):
         cs = case_seed(seed, PID, k)
